@@ -20,6 +20,6 @@ Extraction "../build/ocaml/model.ml"
   (* Ensemble *) pe_epoch_batches pe_epoch_positions pe_gmlp_forward pe_relu pe_swish pe_safe_log_var pe_min_log_var pe_max_log_var pe_call2 pe_call3 pe_base_predict pe_base_distribution pe_aggregate pe_gaussian_nll pe_ensemble_loss pe_evaluate_plans pe_norm_angle pe_pendulum_reward pe_gym_pendulum_reward nsum
   (* Loop *) train gate_gt gate_gt_every gate_ge gate_both
   (* Target / Bounds *) soft_update hard_update due_dqn_family due_every_update due_delayed due_epoch sample_action explore_pre target_noise sample_target_action cem_candidate
-  (* Frame *) frame_check may_change
+  (* Frame *) frame_check may_change sharing
   (* Bandit *) sel_run rr_run ducb_choose ducb_run dscore
   (* Persist *) rb_crash lap_crash sb_crash sbp_crash mtl_crash mtu_crash orbax_restore orbax_reload load_pickle save_pickle restore_checkpoint.
